@@ -491,3 +491,88 @@ def rule_P3(prog, fixture=False):
     if not n_cls and not fixture:
         res.broken.append("anchor vanished: no class with a std::shared_ptr member")
     return res
+
+
+# =================================================================================================
+# P3b ONE-OWNER: a pointer to mutable state that a function hands out is not also kept in a long-lived container  (C06)
+KEEP_METHODS = {"put", "insert", "emplace", "push_back", "emplace_back", "push_front", "emplace_front", "insert_or_assign", "try_emplace", "operator[]"}
+
+
+def rule_P3b(prog, fixture=False):
+    from .rules_extra import _stateful_classes
+    res = RuleResult("P3b", "a std::shared_ptr to an object with mutable state (a class, or a base of a class, whose non-const member "
+                            "functions write members) that a function returns is not also stored by that function in a container "
+                            "with static storage duration or in a member container: the caller and the container would then own "
+                            "one state (immutable objects - transform plans - may be shared this way)")
+    stateful = set(_stateful_classes(prog))
+    # a base class is stateful when a class derived from it is
+    changed = True
+    while changed:
+        changed = False
+        for nm, cj in prog.classes.items():
+            if nm in stateful:
+                for b in cj.get("bases", []):
+                    bt = b.get("type")
+                    if bt and bt not in stateful:
+                        stateful.add(bt)
+                        changed = True
+    n = 0
+    for f in sorted(prog.functions.values(), key=lambda f: (f.file, f.line, f.name)):
+        if f.get("implicit") or f.file.endswith("coverage.cc"):
+            continue
+        rt = f.get("ret", "") or ""
+        locals_sp = {}
+        for v in f.walk():
+            if v.k == "VarDecl" and v.decl and v.decl.get("k") == "local":
+                ty = v.decl.get("dt") or v.type or ""
+                m = re.match(r"^(const )?std::shared_ptr<(.*)>$", ty.strip())
+                if m and m.group(2).strip() in stateful:
+                    locals_sp[v.decl["id"]] = (v, m.group(2).strip())
+        if not locals_sp:
+            continue
+        rel = prog.rel(f.file)
+        for vid, (v, pointee) in sorted(locals_sp.items()):
+            n += 1
+            key = "P3b:%s:%s" % (fkey(f), v.decl["n"])
+            where = "%s:%d" % (rel, v.line)
+            what = "std::shared_ptr<%s> %s in %s" % (pointee.rsplit("::", 1)[-1], v.decl["n"], f.short)
+            extra = {"props": ["C06"]}
+            kept, handed = None, None
+            for x in f.walk():
+                if x.k == "CXXMemberCallExpr" and x.callee and (x.callee.get("qn") or "").rsplit("::", 1)[-1] in KEEP_METHODS:
+                    o = x.call_object()
+                    o0 = o.strip_all() if o is not None else None
+                    long_lived = False
+                    if o0 is not None and o0.k == "DeclRefExpr" and o0.decl and (o0.decl.get("k") == "global" or o0.decl.get("sl")):
+                        long_lived = True
+                    if o0 is not None and o0.k == "MemberExpr" and o0.decl and o0.decl.get("k") == "field":
+                        long_lived = True
+                    if long_lived and any(a.strip_all().k == "DeclRefExpr" and a.strip_all().decl and a.strip_all().decl.get("id") == vid
+                                          for a in _args_deep(x)):
+                        kept = x
+                if x.k == "ReturnStmt" and x.c:
+                    e = x.c[0].strip_all()
+                    while e.k in ("CXXConstructExpr", "MaterializeTemporaryExpr", "CXXBindTemporaryExpr", "ExprWithCleanups") and len(e.c) == 1:
+                        e = e.c[0].strip_all()
+                    if e.k == "DeclRefExpr" and e.decl and e.decl.get("id") == vid:
+                        handed = x
+            if kept is not None and handed is not None:
+                res.add(key, VIOLATED, "%s:%d" % (rel, kept.line), what,
+                        "%s keeps the pointer in a container that outlives the call, and line %d returns the same pointer: whoever "
+                        "receives it advances the state of the stored object, and everything later built from the stored one starts "
+                        "from that history" % (kept.text()[:70], handed.line), func=f.name, extra=extra)
+            else:
+                res.add(key, DISCHARGED, where, what, "not both stored in a long-lived container and returned", func=f.name, extra=extra)
+    res.stats["shared_ptr_locals_to_stateful_objects"] = n
+    return res
+
+
+def _args_deep(call):
+    out = []
+    for a in call.call_args():
+        out.append(a)
+        a0 = a.strip_all()
+        while a0.k in ("CXXConstructExpr", "MaterializeTemporaryExpr", "CXXBindTemporaryExpr") and len(a0.c) == 1:
+            a0 = a0.c[0].strip_all()
+            out.append(a0)
+    return out
